@@ -31,6 +31,7 @@ type obj struct {
 	kind string
 	f    []float64
 	ints []int
+	idom []int // for a graph: its immediate-dominator array from node 0, computed once when the object is built
 	smp  *stats.Sample
 	g    graph.IntGraph
 	kde  *stats.KDE
@@ -81,7 +82,7 @@ func (o *obj) snapshot() []uint64 {
 			r = append(r, uint64(len(l)))
 			r = append(r, ibits(l)...)
 		}
-		return r
+		return append(r, ibits(o.idom)...)
 	case "k":
 		k := o.kde
 		r := []uint64{math.Float64bits(k.Bandwidth), uint64(k.Kernel), math.Float64bits(k.BoundaryMin), math.Float64bits(k.BoundaryMax), bbit(k.Sample.Sorted)}
@@ -146,6 +147,9 @@ func buildObj(t Tok, heap []*obj) *obj {
 		}
 	case "g":
 		o.g = graph.IntGraph(t.Arr[1].Intss())
+		if len(o.g) > 0 {
+			o.idom = graphalg.IDom(graph.MakeBiGraph(o.g), 0)
+		}
 	case "k":
 		o.kde = &stats.KDE{Sample: stats.Sample{Xs: t.Arr[1].Fs()}, Kernel: stats.KDEKernel(t.Arr[2].Int()), Bandwidth: t.Arr[3].F(), BoundaryMin: t.Arr[4].F(), BoundaryMax: t.Arr[5].F()}
 	case "st":
@@ -299,6 +303,14 @@ var opTable = map[string]opSpec{
 		}
 		return f2(stats.BandwidthScott(*o[0].smp), stats.BandwidthSilverman(*o[0].smp))
 	}},
+	// the same two entry points given a POINTER to the sample (their parameter is an interface that both the
+	// value and the pointer satisfy; a pointer lets the callee reach the caller's object)
+	"BandwidthPtr": {[]string{"s"}, 0, false, func(o []*obj, p []float64) []uint64 {
+		if o[0].smp.Weights != nil {
+			return nil
+		}
+		return f2(stats.BandwidthScott(o[0].smp), stats.BandwidthSilverman(o[0].smp))
+	}},
 	// KDE (Bandwidth already filled in by k.Touch in the prefix)
 	"K.PDF":    {[]string{"k"}, 1, false, func(o []*obj, p []float64) []uint64 { return f1(o[0].kde.PDF(p[0])) }},
 	"K.CDF":    {[]string{"k"}, 1, false, func(o []*obj, p []float64) []uint64 { return f1(o[0].kde.CDF(p[0])) }},
@@ -384,6 +396,21 @@ var opTable = map[string]opSpec{
 	"Euler": {[]string{"g"}, 0, false, func(o []*obj, p []float64) []uint64 {
 		var r []uint64
 		graphalg.Euler{Enter: func(n int) { r = append(r, uint64(n)) }, Exit: func(n int) { r = append(r, 1<<32|uint64(n)) }}.Visit(o[0].g, 0)
+		return r
+	}},
+	// the caller's (shared) dominator array handed in: it is an input, read only
+	"DomFrontierGiven": {[]string{"g"}, 0, false, func(o []*obj, p []float64) []uint64 {
+		if o[0].idom == nil {
+			return nil
+		}
+		var r []uint64
+		for _, l := range graphalg.DomFrontier(graph.MakeBiGraph(o[0].g), 0, o[0].idom) {
+			r = append(r, ibits(l)...)
+			r = append(r, 1<<40)
+		}
+		for _, l := range graphalg.Dom(o[0].idom).Out(0) {
+			r = append(r, uint64(l))
+		}
 		return r
 	}},
 	"DomFrontier": {[]string{"g"}, 0, false, func(o []*obj, p []float64) []uint64 {
